@@ -180,6 +180,13 @@ def run_seq_property(pid, tier, seed, extra_cases=None, level="proof", ncases=No
                 common.violation(pid, dict(kind="seq", correspondence="in-Coq (vm_compute) evaluation of the model vs the implementation's observations",
                                            mismatch=xmism, error=xerr), found_input=False)
                 viol_count = 1
+        sh = None
+        if pid == "C08" and not viol_count:
+            shn, shm = seqcheck.search_helper_check(vh, tmp, seed, 400 if tier == "quick" else 4000)
+            sh = dict(queries=shn, mismatches=len(shm))
+            if shm:
+                common.violation(pid, dict(kind="search-helper", correspondence="binary search helpers vs search_ge/search_le of the model", mismatch=shm[:3]), found_input=False)
+                viol_count = len(shm)
         gocov = None
         if pid == "C01":
             cp = os.path.join(tmp, "cov.cases")
@@ -215,7 +222,7 @@ def run_seq_property(pid, tier, seed, extra_cases=None, level="proof", ncases=No
             correspondence_mismatches=len(mismatches), monitor_violations=len(mon_viol), known_finding_hits=len(known_hits),
             distribution=dict(ops_by_kind=dist_ops, cases_by_type=by_type, cases_by_order=by_order, node_splits_seen=tot_splits, node_merges_seen=tot_merges),
             samples=[dict(type=sample["type"], order=sample["order"], keys=sample["keys"][:8], ops=sample["ops"][:25])],
-            repo_fingerprint=common.repo_fingerprint(), in_coq_crosscheck=xc, go_statement_coverage=gocov)
+            repo_fingerprint=common.repo_fingerprint(), in_coq_crosscheck=xc, go_statement_coverage=gocov, search_helper_queries=sh)
         if note:
             coverage["explanation"] = note
         lvl = level if (len(done) == len(names) and names) else "other"
